@@ -407,7 +407,7 @@ def edits_of(rng, f, tier):
     i = rng.randrange(len(ps) + 1)
     new = fresh_name(rng, [p[0] for p in ps])
     out.append(('add_param', doc(ps[:i] + [[new, gen_type(rng, 1)]] + ps[i:]), 'pdoc', 0))
-    if ps and rng.random() < 0.5:
+    if ps:   # a surplus entry that re-uses a documented name
         i = rng.randrange(len(ps))
         out.append(('add_param_duplicate', doc(ps[:i] + [list(ps[i])] + ps[i:]), 'pdoc', 0))
     if d['returns'] is None:
@@ -752,7 +752,7 @@ def judge_typing(c, impl, model, names):
 
 
 # ------------------------------------------------------------------------------------------------
-# known findings
+# known findings (both C19 findings are fixed in /repo: d123a44, 2108a61; the matchers only serve entries that are re-opened)
 def matcher(finding, case):
     m = finding.get('matcher', {}).get('id')
     flags = case.get('_flags') or []
@@ -797,7 +797,8 @@ def run(tier, seed, replay=None):
         c = dict(f['witness'])
         impl, model, frag = evaluate([c])
         corr, viol, _ = judge_docstring(c, impl[0], model[0])
-        return viol is not None and matcher(f, c)
+        # a fixed finding has returned as soon as its witness violates the property again, whatever the shape
+        return viol is not None and (f['status'] == 'fixed' or matcher(f, c))
     ck.replay_known_findings(still_fails)
 
     if replay is not None:
